@@ -61,5 +61,17 @@ func H03_dv() {
 	for i := range order {
 		order[i] = vChoice(fmt.Sprint("visit", i), nDocs)
 	}
-	sCheckDocValues(seg, sp, order, "")
+	st := sCheckDocValuesState(seg, sp, order, "", true, nil)
+	if vParam("secondSeg", 1) == 1 && vBool("secondSeg") {
+		// the same visit state is carried over to another segment (same field list)
+		docs2, sp2 := vGenBatchFixed(gCfg{prefix: "s", idBase: "s", nDocs: 2, wide: -1,
+			fields: []gField{
+				{name: "f", terms: []string{"q"}, dv: true, fixFreq: true},
+				{name: "g", terms: []string{"r"}, dv: true, fixFreq: true},
+				{name: "n", terms: []string{"c"}, fixFreq: true},
+			}})
+		seg2, _, err := z.newWithChunkMode(docs2, DefaultChunkMode)
+		vAssert(err == nil, "build2")
+		_ = sCheckDocValuesState(seg2, sp2, []int{1, 0}, "second-", true, st)
+	}
 }
